@@ -12,6 +12,7 @@ from __future__ import annotations
 from typing import TYPE_CHECKING
 
 from exabgp.bgp.message import Action
+from exabgp.bgp.message.update.collection import validate_announce_nlri
 
 from exabgp.protocol.family import AFI
 from exabgp.protocol.family import SAFI
@@ -51,7 +52,17 @@ def _build_route(
         action_type=action_type,
     )
 
-    return validator.validate(tokeniser)
+    routes = validator.validate(tokeniser)
+
+    # refuse now what UpdateCollection.messages() would refuse once the route is in the Adj-RIB-Out
+    # (a labeled family without label, a VPN family without route-distinguisher, no next-hop)
+    if action_type == Action.ANNOUNCE:
+        for route in routes:
+            error = validate_announce_nlri(route.nlri, route.nexthop)
+            if error:
+                raise ValueError(error)
+
+    return routes
 
 
 def _build_type_selector_route(
